@@ -67,6 +67,7 @@ package encrypt
 //@ func (*Filter).filterValue(ctx, fv, classificationTag, opt) (err)
 //@   requires ef != nil && held(ef.l) == 0
 //@   assigns ev, ctxdone, elem:any, elem:uint8, held, lockacq
+//@   ensures C09/a-failing-step-fails-the-call: err == nil ==> failedCalls("(*Filter).encrypt") == 0 && failedCalls("(*Filter).hmacSha256") == 0 && failedCalls("setValue") == 0
 //@   ensures never-copies: events("sys:deepcopy") == old(events("sys:deepcopy"))
 //@   ensures C09/missing-tag-is-an-error: classificationTag == nil ==> err != nil && ev_n == old(ev_n)
 //@   ensures C09/public-and-explicit-no-operation-are-left-alone: classificationTag != nil && (classificationTag.Classification == PublicClassification || classificationTag.Operation == NoOperation) ==> err == nil && ev_n == old(ev_n)
@@ -84,6 +85,7 @@ package encrypt
 //@ func (*Filter).filterSlice(ctx, classificationTag, slice, opt) (err)
 //@   requires ef != nil && held(ef.l) == 0
 //@   assigns ev, ctxdone, elem:any, elem:uint8, held, lockacq
+//@   ensures C09/an-element-that-cannot-be-filtered-fails-the-call: err == nil ==> failedCalls("(*Filter).filterValue") == 0
 //@   ensures never-copies: events("sys:deepcopy") == old(events("sys:deepcopy"))
 //@   ensures C09/missing-tag-is-an-error: classificationTag == nil ==> err != nil && ev_n == old(ev_n)
 //@   ensures C09/public-slices-are-left-alone: classificationTag != nil && classificationTag.Classification == PublicClassification ==> err == nil && ev_n == old(ev_n)
@@ -91,6 +93,7 @@ package encrypt
 //@   ensures C09/first-failing-element-fails-the-call: callsTo("(*Filter).filterValue") >= old(callsTo("(*Filter).filterValue"))
 //@   ensures locks-restored: unchanged("held")
 //@   ensures unlocked: held(ef.l) == 0
+//@   loop 1 invariant failedCalls("(*Filter).filterValue") == 0
 //@   loop 1 invariant events("sys:deepcopy") == old(events("sys:deepcopy")) && unchanged("held") && held(ef.l) == 0 && 0 <= i && callsTo("(*Filter).filterValue") == old(callsTo("(*Filter).filterValue")) + i && classificationTag != nil && classificationTag.Classification != PublicClassification && old(slice) != nilValue() && slice == derefSlice(old(slice)) && i <= uf("reflect.Len", slice)
 
 // ---- cryptographic operations (C16 kernel): results are uninterpreted functions of key material and data ----
@@ -105,6 +108,7 @@ package encrypt
 //@ func (*Filter).encrypt(ctx, data, opt) (out, err)
 //@   requires ef != nil && held(ef.l) == 0
 //@   assigns ev, ctxdone, elem:any, held, lockacq
+//@   ensures C09+C16/a-failing-wrapper-fails-the-call: err == nil ==> failedCalls("wrapping.Wrapper.Encrypt") == 0
 //@   ensures never-copies: events("sys:deepcopy") == old(events("sys:deepcopy"))
 //@   ensures C16/missing-data-or-wrapper-is-an-error: (data == nil || (len(opt) == 0 && ef.Wrapper == nil)) ==> err != nil && out == ""
 //@   ensures C16/encrypts-under-the-filters-wrapper-read-under-its-lock: err == nil && len(opt) == 0 ==> calls("wrapping.Wrapper.Encrypt") == old(calls("wrapping.Wrapper.Encrypt")) + 1 && ev_kind(ev_n - 1) == "call:wrapping.Wrapper.Encrypt" && ev_a(ev_n - 1, 0) == valof(ef.Wrapper) && ev_a(ev_n - 1, 3) == arr(data)
@@ -117,6 +121,7 @@ package encrypt
 //@ func (*Filter).hmacSha256(ctx, data, opt) (out, err)
 //@   requires ef != nil && held(ef.l) == 0
 //@   assigns ev, ctxdone, elem:any, elem:uint8, held, lockacq
+//@   ensures C09+C16/a-failing-key-derivation-fails-the-call: err == nil ==> failedCalls("NewDerivedReader") == 0
 //@   ensures never-copies: events("sys:deepcopy") == old(events("sys:deepcopy"))
 //@   ensures C16/missing-data-or-wrapper-is-an-error: (data == nil || (len(opt) == 0 && ef.Wrapper == nil)) ==> err != nil && out == ""
 //@   ensures C16/failure-yields-no-digest: err != nil ==> out == ""
@@ -209,6 +214,7 @@ package encrypt
 //@   ensures C10/never-mutates-without-a-copy: events("sys:deepcopy") == old(events("sys:deepcopy")) ==> events("reflect:set") == old(events("reflect:set")) && events("sys:psset") == old(events("sys:psset"))
 //@   ensures C09/a-needed-wrapper-that-is-missing-is-an-error: err == nil && out != nil && out != e && old(ef.Wrapper == nil) && !old(tagImplements(tagof(e.Payload), "EventWrapperInfo")) ==> !old(needsKey(effOp(ef.FilterOperationOverrides, PublicClassification))) && !old(needsKey(effOp(ef.FilterOperationOverrides, SensitiveClassification))) && !old(needsKey(effOp(ef.FilterOperationOverrides, SecretClassification)))
 //@   ensures C09/untagged-maps-are-swept-before-forwarding-unless-the-payload-type-is-ignored: out != nil && out != e ==> callsTo("(*trackedMaps).processUnfiltered") > old(callsTo("(*trackedMaps).processUnfiltered")) || (events("reflect:set") == old(events("reflect:set")) && events("sys:psset") == old(events("sys:psset")))
+//@   ensures C09/any-failing-step-fails-the-event: out != nil ==> failedCalls("(*Filter).filterValue") == 0 && failedCalls("(*Filter).filterSlice") == 0 && failedCalls("(*Filter).filterField") == 0 && failedCalls("(*Filter).filterTaggable") == 0 && failedCalls("(*trackedMaps).processUnfiltered") == 0 && failedCalls("newTrackedMaps") == 0 && failedCalls("copystructure.Copy") == 0 && failedCalls("NewEventWrapper") == 0
 //@   ensures unlocked: held(ef.l) == 0
 //@   loop 1 invariant L1: fresh(filterOps) && filterOps != nil && oldobjects("map:map[DataClassification]FilterOperation") && e == entry(e) && ev_n == old(ev_n) && held(ef.l) == 0 && unchanged("lockacq")
 //@   loop 1 invariant L1dom: forall c DataClassification :: {c in filterOps} (c in filterOps) == isClass(c)
@@ -219,7 +225,25 @@ package encrypt
 //@   loop 2 invariant L2k: forall c DataClassification :: {visited(c)} visited(c) ==> !needsKey(filterOps[c])
 //@   cut before reflect.ValueOf@1 C10/nothing-is-mutated-before-the-copy: held(ef.l) == 0 && e != nil && e == entry(e) && events("reflect:set") == old(events("reflect:set")) && events("sys:psset") == old(events("sys:psset")) && events("sys:deepcopy") == old(events("sys:deepcopy")) && callsTo("(*trackedMaps).processUnfiltered") == old(callsTo("(*trackedMaps).processUnfiltered")) && old(e.Payload != nil && !nothingFiltered(ef.FilterOperationOverrides) && !tagImplements(tagof(e.Payload), "RotateWrapper")) && unchanged("eventlogger.Event.Payload")
 //@   cut before reflect.ValueOf@1 C09/a-needed-wrapper-was-checked-before-the-copy: old(ef.Wrapper == nil && !tagImplements(tagof(e.Payload), "EventWrapperInfo")) ==> !old(needsKey(effOp(ef.FilterOperationOverrides, PublicClassification))) && !old(needsKey(effOp(ef.FilterOperationOverrides, SensitiveClassification))) && !old(needsKey(effOp(ef.FilterOperationOverrides, SecretClassification)))
+//@   atcall copystructure.Copy#1 C10/the-whole-event-is-copied-not-a-part-of-it: valof(callarg(0)) == e && e == entry(e) && tagof(callarg(0)) == typeid("*eventlogger.Event")
+//@   atcall NewEventWrapper#1 C16+C19/the-base-wrapper-is-read-under-the-filter-lock: held(ef.l) >= 1
+//@   atcall (*Filter).filterValue@1 C09/an-unsettable-string-payload-is-refused: ufbool("reflect.CanSet", payloadValue)
+//@   atcall (*Filter).filterValue@1 C10/the-walk-is-rooted-at-the-private-copy: e != entry(e) && fresh(e) && (payloadValue == payloadValueOf(e) || payloadValue == uf("reflect.Elem", payloadValueOf(e)))
+//@   atcall (*Filter).filterSlice@1 C10/the-walk-is-rooted-at-the-private-copy: e != entry(e) && fresh(e) && (payloadValue == payloadValueOf(e) || payloadValue == uf("reflect.Elem", payloadValueOf(e)))
+//@   atcall (*Filter).filterField@1 C10/the-walk-is-rooted-at-the-private-copy: e != entry(e) && fresh(e) && (payloadValue == payloadValueOf(e) || payloadValue == uf("reflect.Elem", payloadValueOf(e)))
+//@   atcall (*Filter).filterTaggable@1 C10/the-walk-is-rooted-at-the-private-copy: e != entry(e) && fresh(e) && tagof(taggedInterface) == uf("reflect.Type", payloadValueOf(e)) && valof(taggedInterface) == uf("reflect.Interface", payloadValueOf(e))
+//@   cut before reflect.ValueOf@1 C09/no-step-has-failed-so-far: failedCalls("(*Filter).filterValue") == 0 && failedCalls("(*Filter).filterSlice") == 0 && failedCalls("(*Filter).filterField") == 0 && failedCalls("(*Filter).filterTaggable") == 0 && failedCalls("(*trackedMaps).processUnfiltered") == 0 && failedCalls("newTrackedMaps") == 0 && failedCalls("copystructure.Copy") == 0 && failedCalls("NewEventWrapper") == 0
+//@   loop 3 invariant L3fail: failedCalls("(*Filter).filterValue") == 0 && failedCalls("(*Filter).filterSlice") == 0 && failedCalls("(*Filter).filterField") == 0 && failedCalls("(*Filter).filterTaggable") == 0 && failedCalls("(*trackedMaps).processUnfiltered") == 0 && failedCalls("newTrackedMaps") == 0 && failedCalls("copystructure.Copy") == 0 && failedCalls("NewEventWrapper") == 0
 //@   loop 3 invariant held(ef.l) == 0 && ef != nil && tm != nil && held(tm.l) == 0 && e != entry(e) && fresh(e) && events("sys:deepcopy") == old(events("sys:deepcopy")) + 1 && callsTo("(*trackedMaps).processUnfiltered") == old(callsTo("(*trackedMaps).processUnfiltered"))
+
+
+//@ func (*Filter).Rotate(opt) ()
+//@   requires ef != nil && held(ef.l) == 0
+//@   assigns held, lockacq, elem:any, Filter.Wrapper, Filter.HmacSalt, Filter.HmacInfo
+//@   ensures C16+C19/rotation-is-one-exclusive-critical-section: acquisitions(ef.l) == old(acquisitions(ef.l)) + 1 && held(ef.l) == 0
+//@   ensures C16/no-options-change-nothing: len(opt) == 0 ==> ef.Wrapper == old(ef.Wrapper) && ef.HmacSalt == old(ef.HmacSalt) && ef.HmacInfo == old(ef.HmacInfo)
+//@   ensures C16/a-nil-option-keeps-the-value-in-force: (ef.Wrapper != nil || old(ef.Wrapper) == nil)
+//@   ensures never-mutates: ev_n == old(ev_n)
 
 // Payload accessor methods are user code; assumed not to touch the filter or the trace (see DESIGN.md, assumptions).
 //@ iface RotateWrapper.Wrapper() (w)
